@@ -470,10 +470,12 @@ package main
 
 
 //@ func parseRootOneStmt
-//@   props C07
+//@   props C07 C16
+//@   modifies maps glob:vardefs glob:typeregs glob:tvaresets glob:uniqueid
 //@   requires live: live(ps)
 //@   panics may
 //@   ensures root-scope-only: sclen(ps.scope) <= 1
+//@   ensures kept: live(result.E0) && samebuf(result.E0, ps) && result.E0.tkz.current.begin > ps.tkz.current.begin
 
 // ---------------------------------------------------------------------------------------------
 // C09: a default-less union match is accepted exactly when it covers every case.
@@ -1284,6 +1286,7 @@ package main
 //@   requires offside-stack-non-empty: len(ps.offsideCol) >= 1
 //@   panics may
 //@   decreases rem(ps)
+//@   ensures progress: result.tkz.current.begin > ps.tkz.current.begin
 //@   ensures scope-kept: result.scope == ps.scope
 //@   ensures live: live(result) && samebuf(result, ps) && sameoff(result.offsideCol, ps.offsideCol)
 //@   ensures block-ends-left-of-its-column-or-at-the-end: result.tkz.col < result.offsideCol[len(result.offsideCol) - 1] || result.tkz.current.ttype == New_TokenType_EOF || result.tkz.current.ttype == New_TokenType_RPAREN
@@ -1302,6 +1305,7 @@ package main
 //@   panics may
 //@   ensures block-scope-is-a-child: scparent(SC) == ps.scope && SC != ps.scope
 //@   ensures registered-in-enclosing-scope: RS == ps.scope
+//@   ensures kept: live(result.E0) && samebuf(result.E0, ps) && result.E0.tkz.current.begin > ps.tkz.current.begin
 //@   ensures scope-restored: result.E0.scope == ps.scope
 //@   at before call parseExtDefs#0: SC = $1.scope
 //@   at before call piRegAll#0: RS = $1
@@ -2715,3 +2719,29 @@ package main
 //@   at before call psRegMdTypes#0: MD = $0
 //@   at before call psRegMdTypes#0: LT = glob(typeregs)
 //@   at before call psRegMdTypes#0: LV = glob(vardefs)
+
+// the top-level loop: every root statement consumes input, so the loop over the statements of a file
+// terminates (variant: bytes left) and ends at end of input
+//@ func parseRootOneStmtSk
+//@   props C16
+//@   modifies maps glob:vardefs glob:typeregs glob:tvaresets glob:uniqueid
+//@   requires live: live(ps)
+//@   panics may
+//@   ensures kept: live(result.E0) && samebuf(result.E0, ps) && result.E0.tkz.current.begin > ps.tkz.current.begin
+
+//@ func psIsRootStmtsEnd
+//@   props C16
+//@   panics never
+//@   returns ps.tkz.current.ttype == New_TokenType_EOF
+
+//@ func parseRootStmts
+//@   props C16
+//@   modifies maps glob:vardefs glob:typeregs glob:tvaresets glob:uniqueid
+//@   requires live: live(ps)
+//@   panics may
+//@   ensures at-the-end-of-input: result.E0.tkz.current.ttype == New_TokenType_EOF
+//@   ensures live: live(result.E0) && samebuf(result.E0, ps)
+//@   inline-call ParseList#0
+//@   loop ParseList#0/0:
+//@     invariant live: live(ps) && samebuf(ps, old(ps))
+//@     decreases rem(ps)
